@@ -191,10 +191,19 @@ def _atlas_worker(job):
         m0, dropped0 = G.build_rec(rec)
         D.norm(m0)
         n = len(rec['atoms'])
-        perms = _perms_for(n, bool(G.n_stereo(rec)), full_limit, k_seeded, r)
-        ncases, keys, gap, bad, info = _check_molecule(rec['id'], m0, rec, perms, 1, n_r, n_rd, r)
-        res.append((rec['id'], str(m0), ncases, keys, gap, bad, info, _n_labels(m0)))
+        anchor = rec['id'].startswith('anchor:')  # fixed witnesses of the recorded defect families: enough draws to fire in every run
+        perms = _perms_for(n, bool(G.n_stereo(rec)), full_limit, 60 if anchor else k_seeded, r)
+        ncases, keys, gap, bad, info = _check_molecule(rec['id'], m0, rec, perms, 1, 120 if anchor else n_r, n_rd, r)
+        res.append((rec['id'], str(m0), ncases, keys, gap, bad, info, _n_labels(m0), _family(m0, gap, bad)))
     return res
+
+
+def _family(m0, gap, bad):
+    """root-cause family of a failing input outside the documented gaps (independent predicates of oracles/o01_families.py)"""
+    if not bad or gap[0] or gap[1]:
+        return None
+    from oracles.o01_families import c01_family
+    return c01_family(m0, {b[0] for b in bad})
 
 
 def _corpus_worker(job):
@@ -207,7 +216,7 @@ def _corpus_worker(job):
         m0 = D.parse(text)
         rec = G.rec_of(m0, text)
         ncases, keys, gap, bad, info = _check_molecule(text, m0, rec, [None] * n_perm, 1, n_r, n_rd, r, rd_source=text)
-        res.append((text, str(m0), ncases, keys, gap, bad, info, _n_labels(m0)))
+        res.append((text, str(m0), ncases, keys, gap, bad, info, _n_labels(m0), _family(m0, gap, bad)))
     return res
 
 
@@ -239,6 +248,11 @@ def bounded(run):
     for i, s in enumerate(G.SPECIAL_SMILES):
         m = D.parse(s)
         recs.append(G.rec_of(m, f'special:{s}', hydrogens=True))
+    from oracles.o01_families import ANCHORS
+    anchors = [G.rec_of(D.parse(s), f'anchor:{s}') for fam in ANCHORS.values() for s in fam]
+    run.bound(f'anchors: {len(anchors)} fixed witnesses of the recorded defect families (oracles/o01_families.py), identical in every tier / seed, '
+              f'60 seeded numberings (all n! for n <= {full_limit}) and 120 random spellings each')
+    recs = anchors + recs
     by_id = {rec['id']: rec for rec in recs}
     run.bound(f'decorated graph atlas: every connected graph <= {max_nodes} nodes, max degree 4, {trials} seeded decorations (2x for trees) '
               f'+ charge/isotope/radical variants + spectator components + every 2^k labelling (k <= 4) of the stereo elements chython '
@@ -247,10 +261,11 @@ def bounded(run):
               f'numberings above; each with a seeded atom / bond insertion order and bond direction; + 1 remap(); 3 chython random '
               f'spellings; 2 RDKit random spellings')
     # larger molecules first inside round-robin chunks to balance load
-    recs_sorted = sorted(recs, key=lambda x: -len(x['atoms']))
+    recs_sorted = anchors + sorted(recs[len(anchors):], key=lambda x: -len(x['atoms']))
     nchunk = max(env.NPROC * 6, 1)
     jobs = [(recs_sorted[i::nchunk], full_limit, k_seeded, 3, 2, 'b01a') for i in range(nchunk) if recs_sorted[i::nchunk]]
     atlas_res = [x for part in pmap(_atlas_worker, jobs) for x in part]
+    atlas_res.sort(key=lambda x: (not x[0].startswith('anchor:'),))  # anchors first: they become the recorded witnesses
 
     texts = D.corpus_sample(n_corpus, tag='b01-corpus')
     texts = list(dict.fromkeys(texts))
@@ -265,7 +280,7 @@ def bounded(run):
              'rdkit_samples': [], 'labels_not_accepted_on_rebuild': 0, 'molecules': 0, 'stereo_molecules': 0}
     by_string = {}
     for domain, res in (('atlas', atlas_res), ('corpus', corpus_res)):
-        for ident, s0, ncases, keys, gap, bad, info, nlab in res:
+        for ident, s0, ncases, keys, gap, bad, info, nlab, fam in res:
             notes['molecules'] += 1
             notes['stereo_molecules'] += bool(nlab)
             notes['gap1_molecules'] += gap[0]
@@ -294,7 +309,8 @@ def bounded(run):
                         notes['gap_hit_samples'].append({'input': ident, 'gap': 1 if gap[0] else 2, 'relation': rel, 'what': what})
                 continue
             rel, what, witness = bad[0]
-            run.violation(f'c01:{_h(ident)}:{ident}', f'C01 {rel}: {what} [{domain} input {ident}]' +
+            run.violation(f'c01:{fam}' if fam else f'c01:{_h(ident)}:{ident}',
+                          (f'[family {fam}] ' if fam else '') + f'C01 {rel}: {what} [{domain} input {ident}]' +
                           (f' (also: {", ".join(b[0] for b in bad[1:])})' if len(bad) > 1 else ''),
                           witness={'domain': domain, 'input': ident, 'record': by_id.get(ident), 'relation': rel, **witness},
                           native={'reference': s0, 'differences': {b[0]: b[1] for b in bad}})
@@ -319,13 +335,14 @@ def bounded(run):
             run.case(1, key=(s0, 'collision'))
     # ... and stereo-free atlas decorations of one graph that are isomorphic have one string (two descriptions of one structure)
     buckets = {}
-    for ident, s0, *_rest, nlab in atlas_res:
+    for ident, s0, *_rest, nlab, _fam in atlas_res:
         rec = by_id[ident]
         if nlab or G.n_stereo(rec):
             continue
         inv = (tuple(sorted(map(repr, rec['atoms']))), tuple(sorted(o for *_, o in rec['bonds'])))
         buckets.setdefault(inv, []).append((ident, s0))
     from oracles.o01_gaps import gaps
+    from oracles.o01_families import c01_family
     for inv, members in buckets.items():
         for (ia, sa), (ib, sb) in itertools.combinations(members, 2):
             if sa == sb:
@@ -337,7 +354,8 @@ def bounded(run):
                 if any(gaps(ma)):
                     notes['gap_hits'] += 1
                     continue
-                run.violation(f'iso-pair:{_h(ia + ib)}:{ia}|{ib}', f'C01: isomorphic molecules with canonical strings {sa!r} and {sb!r}',
+                fam = c01_family(ma, {'iso-pair'})
+                run.violation(f'c01:{fam}' if fam else f'iso-pair:{_h(ia + ib)}:{ia}|{ib}', f'C01: isomorphic molecules with canonical strings {sa!r} and {sb!r}',
                               witness={'relation': 'iso-pair', 'record_a': by_id[ia], 'record_b': by_id[ib]},
                               native={'a': sa, 'b': sb})
     notes['distinct_canonical_strings'] = len(by_string)
